@@ -16,7 +16,39 @@ fn c16_raw(tier: Tier) -> proptest::strategy::BoxedStrategy<Raw> {
     }
 }
 
+/// One `SelectorSubscriber` object registered with add_subscriber on two stores: notifications
+/// arrive on two reducer threads concurrently, yet it must never deliver the value it delivered last.
+fn c16_shared(raw: &Raw) -> Scenario {
+    let mut b = ScnB::new();
+    let mut stores = vec![];
+    for i in 0..2usize {
+        let s = b.store(if i == 0 { "c16x" } else { "c16y" }, CAPS[pick(knob(raw, i), CAPS.len())], Pol::Block, CTORS[pick(knob(raw, 4 + i), 3)].clone());
+        b.reducer(s);
+        stores.push(s);
+    }
+    let shared = b.sub(SubKind::SelectorObj { fresh: false });
+    for s in &stores {
+        b.s.prelude.push(Op::Subscribe { store: *s, sub: shared });
+    }
+    for (t, ops) in raw.threads.iter().enumerate() {
+        let th = b.thread();
+        for r in ops {
+            // thread t mostly feeds store t%2; two values only, so equal neighbours are frequent
+            let s = stores[(t + (r.k as usize >> 3) % 4 / 3) % 2];
+            let a = b.action(s, ((r.a >> 3) % 2) as u8);
+            b.s.threads[th].push(Op::Dispatch { act: a, via: via_of(r) });
+        }
+    }
+    for s in &stores {
+        b.s.epilogue.push(Op::Stop { store: *s, via_trait: false });
+    }
+    b.finish()
+}
+
 pub fn c16_build(raw: &Raw, _tier: Tier, _sched: bool) -> Scenario {
+    if knob(raw, 6) % 3 == 0 {
+        return c16_shared(raw);
+    }
     let mut b = ScnB::new();
     let s = b.store("c16", CAPS[pick(knob(raw, 0), CAPS.len())], Pol::Block, CTORS[pick(knob(raw, 1), 3)].clone());
     let r0 = b.reducer(s);
@@ -57,6 +89,38 @@ pub fn c16_check(scn: &Scenario, h: &History) -> Outcome {
     let mut out = Outcome::default();
     let Some((d, _p)) = prepare("C16", false, scn, h, &mut out) else { return out };
     let s = 0;
+    // a selector subscription object shared by two stores: "calls its callback exactly when the
+    // selected value differs from the one it last delivered" => never the same value twice in a row
+    for sp in scn.subs.iter().filter(|x| matches!(x.kind, SubKind::SelectorObj { .. })) {
+        let delivered: Vec<(u64, ActId)> = h.recs.iter().filter_map(|r| match &r.ev {
+            Ev::SelCb { sub, val, act } if *sub == sp.id => Some((*val, *act)),
+            _ => None,
+        }).collect();
+        let notified = h.recs.iter().filter(|r| matches!(&r.ev, Ev::SelIn { sub, .. } if *sub == sp.id)).count();
+        for w in delivered.windows(2) {
+            if w[0].0 == w[1].0 {
+                out.viol(format!("selector subscription object {} (registered on two stores) delivered value {} for action {} and then the same value again for action {}: it delivers only when the value differs from the one it last delivered", sp.id, w[0].0, w[0].1, w[1].1));
+                break;
+            }
+        }
+        if notified > 0 && delivered.is_empty() {
+            out.viol(format!("selector subscription object {} was notified {} times but never called its callback (the first notification must be delivered)", sp.id, notified));
+        }
+        // deliveries carry the value selected from the state of the action they name
+        for (v, a) in &delivered {
+            if *v != scn.actions[*a as usize].sel as u64 {
+                out.viol(format!("selector subscription object {} delivered value {} with action {}, whose state selects {}", sp.id, v, a, scn.actions[*a as usize].sel));
+            }
+        }
+        out.class("shared-between-two-stores");
+        let vals: Vec<u64> = scn.actions.iter().map(|a| a.sel as u64).collect();
+        if vals.windows(2).any(|w| w[0] == w[1]) && vals.iter().any(|v| *v != vals[0]) && notified >= 4 {
+            out.nontrivial = true;
+        }
+    }
+    if scn.stores.len() > 1 {
+        return out;
+    }
     for (sub, _) in d.stores[s].subs.iter() {
         if !matches!(d.sub_kind(*sub), SubKind::Selector { .. }) {
             continue;
@@ -155,7 +219,7 @@ pub fn c16_extra(_tier: Tier) -> ExtraResult {
 
 pub static C16: Profile = Profile {
     id: "C16",
-    rule: "(1) enumeration: every sequence of selected values over {0,1,2} of length 0..=8 (9841 sequences) fed straight to SelectorSubscriber::on_notify; (2) proptest: sequences of up to 2x60 (quick) / 2x100 (thorough) actions over alphabets of 2-5 selected values through a running store with 1-2 selector subscriptions and 1-2 producers (Keep actions interspersed). Oracle O-SELECT: delivered (value, action) list = consecutive-duplicate removal of the notification stream. Non-trivial = the stream contains an adjacent repeat AND a later return to an earlier value; distinct by scenario hash (random part) / by sequence (enumeration).",
+    rule: "(1) enumeration: every sequence of selected values over {0,1,2} of length 0..=8 (9841 sequences) fed straight to SelectorSubscriber::on_notify; (2) proptest: sequences of up to 2x60 (quick) / 2x100 (thorough) actions over alphabets of 2-5 selected values through a running store with 1-2 selector subscriptions and 1-2 producers (Keep actions interspersed); in a third of the cases one SelectorSubscriber object is registered on two stores fed concurrently (it must never deliver the value it delivered last). Oracle O-SELECT: delivered (value, action) list = consecutive-duplicate removal of the notification stream. Non-trivial = the stream contains an adjacent repeat AND a later return to an earlier value; distinct by scenario hash (random part) / by sequence (enumeration).",
     raw: c16_raw,
     build: c16_build,
     check: c16_check,
